@@ -9,7 +9,8 @@ Grammar (line oriented; `#` starts a comment outside blocks; a block is  <<< ...
   include FILE                      (another prelude text file, relative to /verif/spec)
   opaque TYPE-PREFIX ...            (R6: struct field types starting with one of these become `Opaque`)
   dropfield STRUCT FIELD ...        (R6b: field removed from struct AND from struct literals of that type)
-  rewrite `old tokens` => `new text`   (unit-wide token rewrite, reported)
+  rewrite `old tokens` => `new text`   (unit-wide token rewrite, every occurrence, reported; pattern tokens __1, __2 match a
+                                        balanced token run and are substituted into the new text)
   opaque_call `Path::Ctor` => `stub()` (unit-wide: a call of that constructor, WITH its arguments, becomes the stub expression; reported)
   assume NOTE                       (free-text assumption for the evidence)
 
